@@ -28,7 +28,7 @@ REPO = os.environ.get('VERIF_REPO', '/repo')
 SCRATCH = os.environ.get('VERIF_SCRATCH', '/var/tmp/relic-verif')
 # where evidence/ and replays/ are written (mutant runs against scratch copies point this elsewhere)
 OUT = os.environ.get('VERIF_OUT', VERIF)
-NPROC = min(16, os.cpu_count() or 1)
+NPROC = int(os.environ.get('VERIF_WORKERS', min(16, os.cpu_count() or 1)))
 
 M64 = (1 << 64) - 1
 
